@@ -642,6 +642,87 @@ func isPoolPut(f *types.Func) bool {
 	return isMethod(f, modPath+"/internal/server", "lStatePool", "Put")
 }
 
+// poolReturner: f hands a Lua state back to the pool — it is lStatePool.Put, or a repository function that
+// calls such a function on every... some path (a release helper). clears lists the per-call globals that f
+// resets to nil, by an all-nil luaSetRawGlobals call that dominates every hand-back in f (plus what the inner
+// returner resets).
+type poolRet struct {
+	is     bool
+	clears map[string]bool
+}
+
+var poolRetMemo = map[*types.Func]*poolRet{}
+
+func (c *Ctx) poolReturner(f *types.Func) *poolRet {
+	if f == nil {
+		return &poolRet{}
+	}
+	if r, ok := poolRetMemo[f]; ok {
+		return r
+	}
+	r := &poolRet{clears: map[string]bool{}}
+	poolRetMemo[f] = r
+	if isPoolPut(f) {
+		r.is = true
+		return r
+	}
+	fi := c.FuncOf(f)
+	if fi == nil || fi.Decl.Body == nil || f.Name() == "Close" {
+		return r
+	}
+	info := fi.Info()
+	fg := newFlowGraph(info, fi.Decl.Body)
+	inner := fg.FindCalls(func(g *types.Func, call *ast.CallExpr) bool { return g != nil && g != f && c.poolReturner(g).is })
+	if len(inner) == 0 {
+		return r
+	}
+	r.is = true
+	first := true
+	for _, p := range inner {
+		got := map[string]bool{}
+		if call, ok := p.Node.(*ast.CallExpr); ok {
+			for k := range c.poolReturner(callee(info, call)).clears {
+				got[k] = true
+			}
+		}
+		for _, cl := range fg.Find(func(x ast.Node) bool {
+			call, ok := x.(*ast.CallExpr)
+			return ok && isSetRawGlobals(callee(info, call))
+		}) {
+			ks, allNil, ok := globalsLit(info, cl.Node.(*ast.CallExpr))
+			if ok && allNil && fg.Dominates(cl, p) {
+				for _, k := range ks {
+					got[k] = true
+				}
+			}
+		}
+		if first {
+			r.clears, first = got, false
+		} else {
+			for k := range r.clears {
+				if !got[k] {
+					delete(r.clears, k)
+				}
+			}
+		}
+	}
+	return r
+}
+
+// returnerClears: the call hands the state back through a function that resets all of keys first.
+func (c *Ctx) returnerClears(f *types.Func, keys []string) bool {
+	r := c.poolReturner(f)
+	if !r.is {
+		return false
+	}
+	for _, k := range keys {
+		if !r.clears[k] {
+			return false
+		}
+	}
+	return true
+}
+
 func rulePerCallGlobals(c *Ctx) {
 	n := 0
 	for _, fn := range c.AllFuncs("internal/server") {
@@ -691,7 +772,7 @@ func rulePerCallGlobals(c *Ctx) {
 		// owner hand-off: the state is stored into a composite literal of a type whose Close clears+puts
 		hasDeferPut := fg.Find(func(x ast.Node) bool {
 			d, ok := x.(*ast.DeferStmt)
-			return ok && isPoolPut(callee(info, d.Call))
+			return ok && c.poolReturner(callee(info, d.Call)).is
 		})
 		for _, s := range sets {
 			n++
@@ -711,7 +792,7 @@ func rulePerCallGlobals(c *Ctx) {
 					}
 					if call, ok := x.(*ast.CallExpr); ok {
 						f := callee(info, call)
-						if isPoolPut(f) {
+						if c.poolReturner(f).is && !c.returnerClears(f, s.keys) {
 							direct = true
 						}
 					}
@@ -721,8 +802,11 @@ func rulePerCallGlobals(c *Ctx) {
 					return true
 				}
 				if _, isRet := l.Node.(*ast.ReturnStmt); isRet {
-					// a deferred Put pending at this return?
+					// a deferred hand-back pending at this return that does not reset the keys itself?
 					for _, d := range hasDeferPut {
+						if c.returnerClears(callee(info, d.Node.(*ast.DeferStmt).Call), s.keys) {
+							continue
+						}
 						if r, _ := fg.Reach(PathQuery{From: d, Target: func(x Loc) bool { return x.Block == l.Block && x.Idx == l.Idx }}); r {
 							return true
 						}
@@ -771,7 +855,7 @@ func rulePerCallGlobals(c *Ctx) {
 		info := fn.Info()
 		puts := 0
 		ast.Inspect(fn.Decl.Body, func(x ast.Node) bool {
-			if call, ok := x.(*ast.CallExpr); ok && isPoolPut(callee(info, call)) {
+			if call, ok := x.(*ast.CallExpr); ok && c.poolReturner(callee(info, call)).is {
 				puts++
 			}
 			return true
@@ -792,7 +876,7 @@ func rulePerCallGlobals(c *Ctx) {
 func closeClearsThenPuts(c *Ctx, fn *FuncInfo, keys []string) bool {
 	info := fn.Info()
 	fg := newFlowGraph(info, fn.Decl.Body)
-	puts := fg.FindCalls(func(f *types.Func, call *ast.CallExpr) bool { return isPoolPut(f) })
+	puts := fg.FindCalls(func(f *types.Func, call *ast.CallExpr) bool { return c.poolReturner(f).is })
 	clears := fg.Find(func(x ast.Node) bool {
 		call, ok := x.(*ast.CallExpr)
 		if !ok || !isSetRawGlobals(callee(info, call)) {
@@ -810,6 +894,9 @@ func closeClearsThenPuts(c *Ctx, fn *FuncInfo, keys []string) bool {
 			if fg.Dominates(cl, p) {
 				d = true
 			}
+		}
+		if call, ok := p.Node.(*ast.CallExpr); ok && c.returnerClears(callee(info, call), keys) {
+			d = true
 		}
 		if !d {
 			return false
